@@ -14,6 +14,7 @@ import (
 	"reflect"
 	"sort"
 	"strings"
+	"time"
 	"unsafe"
 
 	"github.com/filecoin-project/go-jsonrpc"
@@ -44,6 +45,37 @@ func statusName(c coreda.StatusCode) string {
 		}
 	}
 	return fmt.Sprintf("code%d", uint64(c))
+}
+
+// httpServerOf reads the unexported field `srv *http.Server` of the proxy server (reflection, like the registry).
+func httpServerOf(srv *proxy.Server) (hs *http.Server, err error) {
+	defer func() {
+		if r := recover(); r != nil {
+			err = fmt.Errorf("proxy.Server layout changed: %v", r)
+		}
+	}()
+	v := reflect.ValueOf(srv).Elem()
+	var found *http.Server
+	for i := 0; i < v.NumField(); i++ {
+		f := v.Field(i)
+		if f.Type() == reflect.TypeOf((*http.Server)(nil)) {
+			if found != nil {
+				return nil, errors.New("proxy.Server has more than one *http.Server field")
+			}
+			found = *(**http.Server)(unsafe.Pointer(f.UnsafeAddr()))
+		}
+	}
+	if found == nil {
+		return nil, errors.New("proxy.Server has no *http.Server field")
+	}
+	return found, nil
+}
+
+func nonNeg(d time.Duration) int64 {
+	if d < 0 {
+		return 0 // net/http treats a negative timeout as none
+	}
+	return int64(d)
 }
 
 // registryDump reads go-jsonrpc's Errors (unexported maps) of the registry the proxy installs.
@@ -254,6 +286,16 @@ func init() {
 		fmt.Fprintf(&b, "def statusValues : List Nat := [%s]\n", strings.Join(sv, ", "))
 		fmt.Fprintf(&b, "/-- MaxBlobSize of a client fresh from NewClient -/\ndef defaultMaxBlobSize : Nat := %d\n", fx.defMax)
 		fmt.Fprintf(&b, "def hookDefaultMaxBlobSize : Nat := %d\n", proxy.VerifDefaultMaxBlobSize())
+		// ---- the deadlines of the http.Server NewServer builds (read from the real server value)
+		hs, err := httpServerOf(fx.srv)
+		if err != nil {
+			return "", err
+		}
+		fmt.Fprintf(&b, "/-- timeouts (nanoseconds) of the *http.Server inside the server proxy.NewServer returns; 0 = none -/\ndef serverWriteTimeout : Nat := %d\n", nonNeg(hs.WriteTimeout))
+		fmt.Fprintf(&b, "def serverReadTimeout : Nat := %d\n", nonNeg(hs.ReadTimeout))
+		fmt.Fprintf(&b, "def serverIdleTimeout : Nat := %d\n", nonNeg(hs.IdleTimeout))
+		fmt.Fprintf(&b, "def serverReadHeaderTimeout : Nat := %d\n", nonNeg(hs.ReadHeaderTimeout))
+		fmt.Fprintf(&b, "/-- the handler is wrapped by http.TimeoutHandler (would answer 503 for a slow DA call) -/\ndef serverHandlerIsTimeoutHandler : Bool := %s\n", hx.LeanBool(hs.Handler != nil && strings.Contains(reflect.TypeOf(hs.Handler).String(), "timeoutHandler")))
 		fx.back.reset(script{IDs: "ok", N: 250, Get: "ok"})
 		rr := types.RetrieveWithHelpers(ctx, fx.back, fx.logger, 5, nil)
 		var ch []string
